@@ -396,6 +396,15 @@ func (x *XRefParser) parseXRefStream() (*XRefTable, error) {
 			return nil, fmt.Errorf("invalid /W element type: %T", val)
 		}
 		w[i] = int(intVal)
+		// Field widths are byte counts of big-endian integers; anything outside
+		// 0..8 cannot be a field of an entry (and a negative width would be used
+		// as a slice bound).
+		if w[i] < 0 || w[i] > 8 {
+			return nil, fmt.Errorf("invalid /W element %d: %d", i, w[i])
+		}
+	}
+	if w[0]+w[1]+w[2] == 0 {
+		return nil, fmt.Errorf("invalid /W array: all field widths are zero")
 	}
 
 	// Parse entries from binary data
@@ -406,6 +415,9 @@ func (x *XRefParser) parseXRefStream() (*XRefTable, error) {
 	table.Trailer = stream.Dict
 
 	// Process subsections defined by /Index
+	if len(index)%2 != 0 {
+		return nil, fmt.Errorf("invalid /Index array length: %d (expected pairs)", len(index))
+	}
 	dataOffset := 0
 	for i := 0; i < len(index); i += 2 {
 		firstObjNum := index[i]
